@@ -150,6 +150,11 @@ Definition ex_claims (cid red : pystr) : params :=
 Definition ex_by_value : params := List.app ex_outer [(k_request, PS_ s_jws)].
 Definition ex_urn : pystr := PS "urn:uuid:1".
 Definition ex_by_uri (u : pystr) : params := List.app ex_outer [(k_request_uri, PS_ u)].
+(* an issued request_uri with a letter in it, and other spellings of it (never issued) *)
+Definition ex_urn_a : pystr := PS "urn:uuid:a1".
+Definition ex_spellings : list pystr :=
+  [PS "urn:uuid:A1"; PS "URN:UUID:a1"; PS "Urn:Uuid:a1"; PS " urn:uuid:a1"; PS "urn:uuid:a1 "; PS "urn:uuid:a1#x";
+   PS "urn:uuid:a1?x=1"; PS "urn%3Auuid%3Aa1"; PS "urn:uuid:%611"].
 
 (* the object's parameters took effect: accepted, verified object attached, state is the object's *)
 Definition took_effect (o : outcome) : bool :=
